@@ -192,6 +192,11 @@ fn main() {
             let r = crypto_kdf_derive_from_key(&mut sk, id, b"ctxctxct", &key32).map(|_| sk).map_err(|e| e.to_string());
             o.emit_res(&format!("kdf/{}/{}", id, len), r);
         }
+        // object API (32-byte subkeys into stack / Vec containers)
+        let ks: Kdf<StackByteArray<32>, StackByteArray<8>> = Kdf::from_parts(StackByteArray::from(key32), StackByteArray::from(*b"ctxctxct"));
+        o.emit_res(&format!("kdf_obj:to_vec/{}", id), ks.derive_subkey_to_vec(id).map_err(|e| e.to_string()));
+        let r: Result<StackByteArray<32>, _> = ks.derive_subkey(id);
+        o.emit_res(&format!("kdf_obj:stack/{}", id), r.map(|v| v.as_slice().to_vec()).map_err(|e| e.to_string()));
     }
     // ------------------------------------------------ X25519, kx, box, sealed-box nonce, signatures
     let nkeys = if thorough { 3000 } else { 60 };
@@ -245,6 +250,89 @@ fn main() {
 
         #[cfg(feature = "nightly")]
         containers(&mut o, i, &m, &nonce, &key32, (&apk, &ask), (&bpk, &bsk), &ssk);
+    }
+    // ------------------------------------------------ the crate's public type aliases have libsodium's lengths, and the
+    // length-inferring APIs (generic hash) give the same bytes through the stack aliases as through explicit types
+    if o.mine() {
+        macro_rules! alias_len {
+            ($name:expr, $t:ty, $want:expr) => {{
+                let v = <$t>::default();
+                o.same(&format!("alias_len:{}/0", $name), &[Bytes::len(&v) as u8], &[$want as u8]);
+            }};
+        }
+        alias_len!("auth::Key", dryoc::auth::Key, 32);
+        alias_len!("auth::Mac", dryoc::auth::Mac, 32);
+        alias_len!("dryocbox::PublicKey", dryoc::dryocbox::PublicKey, 32);
+        alias_len!("dryocbox::SecretKey", dryoc::dryocbox::SecretKey, 32);
+        alias_len!("dryocbox::Nonce", dryoc::dryocbox::Nonce, 24);
+        alias_len!("dryocbox::Mac", dryoc::dryocbox::Mac, 16);
+        alias_len!("dryocsecretbox::Key", dryoc::dryocsecretbox::Key, 32);
+        alias_len!("dryocsecretbox::Nonce", dryoc::dryocsecretbox::Nonce, 24);
+        alias_len!("dryocsecretbox::Mac", dryoc::dryocsecretbox::Mac, 16);
+        alias_len!("dryocstream::Key", dryoc::dryocstream::Key, 32);
+        alias_len!("dryocstream::Nonce", dryoc::dryocstream::Nonce, 12);
+        alias_len!("dryocstream::Header", dryoc::dryocstream::Header, 24);
+        alias_len!("generichash::Hash", dryoc::generichash::Hash, 32);
+        alias_len!("generichash::Key", dryoc::generichash::Key, 32);
+        alias_len!("kdf::Key", dryoc::kdf::Key, 32);
+        alias_len!("kdf::Context", dryoc::kdf::Context, 8);
+        alias_len!("keypair::PublicKey", dryoc::keypair::PublicKey, 32);
+        alias_len!("keypair::SecretKey", dryoc::keypair::SecretKey, 32);
+        alias_len!("kx::SessionKey", dryoc::kx::SessionKey, 32);
+        alias_len!("kx::PublicKey", dryoc::kx::PublicKey, 32);
+        alias_len!("kx::SecretKey", dryoc::kx::SecretKey, 32);
+        alias_len!("onetimeauth::Key", dryoc::onetimeauth::Key, 32);
+        alias_len!("onetimeauth::Mac", dryoc::onetimeauth::Mac, 16);
+        alias_len!("sha512::Digest", dryoc::sha512::Digest, 64);
+        alias_len!("sign::PublicKey", dryoc::sign::PublicKey, 32);
+        alias_len!("sign::SecretKey", dryoc::sign::SecretKey, 64);
+        alias_len!("sign::Signature", dryoc::sign::Signature, 64);
+        let m = msg_of(77, 100);
+        let k: dryoc::generichash::Key = StackByteArray::from(key32);
+        let want: StackByteArray<32> = GenericHash::<32, 32>::hash(&m, Some(&k)).unwrap();
+        let got: dryoc::generichash::Hash = GenericHash::hash(&m, Some(&k)).unwrap();
+        o.same("gh_alias:stack/0", want.as_slice(), got.as_slice());
+        let mut h = GenericHash::new(Some(&k)).unwrap();
+        h.update(&m);
+        let got2: dryoc::generichash::Hash = h.finalize().unwrap();
+        o.same("gh_alias:stack-incremental/0", want.as_slice(), got2.as_slice());
+        #[cfg(feature = "nightly")]
+        {
+            use dryoc::protected::*;
+            alias_len!("auth::protected::Key", dryoc::auth::protected::Key, 32);
+            alias_len!("auth::protected::Mac", dryoc::auth::protected::Mac, 32);
+            alias_len!("dryocbox::protected::PublicKey", dryoc::dryocbox::protected::PublicKey, 32);
+            alias_len!("dryocbox::protected::SecretKey", dryoc::dryocbox::protected::SecretKey, 32);
+            alias_len!("dryocbox::protected::Nonce", dryoc::dryocbox::protected::Nonce, 24);
+            alias_len!("dryocbox::protected::Mac", dryoc::dryocbox::protected::Mac, 16);
+            alias_len!("dryocsecretbox::protected::Key", dryoc::dryocsecretbox::protected::Key, 32);
+            alias_len!("dryocsecretbox::protected::Nonce", dryoc::dryocsecretbox::protected::Nonce, 24);
+            alias_len!("dryocsecretbox::protected::Mac", dryoc::dryocsecretbox::protected::Mac, 16);
+            alias_len!("dryocstream::protected::Key", dryoc::dryocstream::protected::Key, 32);
+            alias_len!("dryocstream::protected::Nonce", dryoc::dryocstream::protected::Nonce, 12);
+            alias_len!("dryocstream::protected::Header", dryoc::dryocstream::protected::Header, 24);
+            alias_len!("generichash::protected::Hash", dryoc::generichash::protected::Hash, 32);
+            alias_len!("generichash::protected::Key", dryoc::generichash::protected::Key, 32);
+            alias_len!("kdf::protected::Key", dryoc::kdf::protected::Key, 32);
+            alias_len!("kdf::protected::Context", dryoc::kdf::protected::Context, 8);
+            alias_len!("kx::protected::SessionKey", dryoc::kx::protected::SessionKey, 32);
+            alias_len!("kx::protected::PublicKey", dryoc::kx::protected::PublicKey, 32);
+            alias_len!("kx::protected::SecretKey", dryoc::kx::protected::SecretKey, 32);
+            alias_len!("onetimeauth::protected::Key", dryoc::onetimeauth::protected::Key, 32);
+            alias_len!("onetimeauth::protected::Mac", dryoc::onetimeauth::protected::Mac, 16);
+            alias_len!("sign::protected::PublicKey", dryoc::sign::protected::PublicKey, 32);
+            alias_len!("sign::protected::SecretKey", dryoc::sign::protected::SecretKey, 64);
+            alias_len!("sign::protected::Signature", dryoc::sign::protected::Signature, 64);
+            let pk: dryoc::generichash::protected::Key = HeapByteArray::from(&key32);
+            let got3: dryoc::generichash::protected::Hash = GenericHash::hash(&m, Some(&pk)).unwrap();
+            o.same("gh_alias:protected/0", want.as_slice(), got3.as_slice());
+            let got4: Locked<dryoc::generichash::protected::Hash> = GenericHash::hash(&m, Some(&pk)).unwrap();
+            o.same("gh_alias:protected-locked/0", want.as_slice(), got4.as_slice());
+            let mut h = GenericHash::new(Some(&pk)).unwrap();
+            h.update(&m);
+            let got5: dryoc::generichash::protected::Hash = h.finalize().unwrap();
+            o.same("gh_alias:protected-incremental/0", want.as_slice(), got5.as_slice());
+        }
     }
     // ------------------------------------------------ Argon2 grid (reduced) incl. password lengths that end on BLAKE2b block boundaries
     for (ai, alg) in [PasswordHashAlgorithm::Argon2i13, PasswordHashAlgorithm::Argon2id13].into_iter().enumerate() {
